@@ -309,6 +309,8 @@ def function_caches(f: FuncInfo) -> List[Tuple[str, ast.AST, ast.AST]]:
         # a memo: the looked-up entry is what the function returns on a hit
         returns_hit = False
         hit_vars = {norm(x.targets[0]) for x in walk_no_nested(f.node) if isinstance(x, ast.Assign) and isinstance(x.value, ast.Call) and isinstance(x.value.func, ast.Attribute) and x.value.func.attr == "get" and norm(x.value.func.value) == f"self.{fld}"}
+        # … also `v = self.<cache>[key]` under `key in self.<cache>`
+        hit_vars |= {norm(x.targets[0]) for x in walk_no_nested(f.node) if isinstance(x, ast.Assign) and len(x.targets) == 1 and isinstance(x.value, ast.Subscript) and norm(x.value.value) == f"self.{fld}"}
         for r in walk_no_nested(f.node):
             if isinstance(r, ast.Return) and r.value is not None:
                 if norm(r.value) in hit_vars or (isinstance(r.value, ast.Subscript) and norm(r.value.value) == f"self.{fld}"):
